@@ -1,5 +1,6 @@
 (* C03 — every issued certificate is short-lived, whatever duration is requested. *)
-From Coq Require Import ZArith.
+From Coq Require Import ZArith List.
+Import ListNotations.
 From KM Require Import Model.Lifetime Proofs.Lifetime.
 Open Scope Z_scope.
 
@@ -69,3 +70,47 @@ Theorem c03_bound_after_upgrades : forall maxc req s levels now1 now2 d,
   snd (ssh_window now2 d) * NS <= fst s + maxc + (now2 - now1).
 Proof. exact ssh_bound_after_upgrades. Qed.
 Print Assumptions c03_bound_after_upgrades.
+
+(* EVERY issuing path under EVERY configuration.  [cfg] is the value of every numeric / duration knob of
+   the configuration file (universally quantified: no lifetime depends on it), [L] the three compiled
+   limits, [p] the path (/certgen/ ssh or x509, role-requesting, refresh, cloud-role), [req] the duration
+   form field (absent: the default path), [c] the credential and how its authenticated-at instant is
+   derived (cookie iat, client-certificate NotBefore, IP-certificate NotBefore, password = now).  If
+   anything is signed, the window starts now (SSH: this second) and ends within the path's limit;
+   on /certgen/ it also ends within the limit counted from the authenticated-at instant (or is born
+   expired) and within the requested duration; on the other paths the length is the constant whatever
+   the request carries.  Obl_C03 instantiates L with the regenerated values and proves the literal
+   numbers of the property (24 h, 45 d, 24 h). *)
+Theorem c03_effective_window : forall cfg L p req c now0 now1 now2 nb na,
+  sane L -> 0 <= issued_at c now0 -> 0 <= now1 <= now2 -> now2 < two64 * NS / 4 ->
+  now1 < issued_at c now0 + two64 * NS / 4 ->
+  effective_window cfg L p req c now0 now1 now2 = Some (nb, na) ->
+  nb <= now2 /\ now2 - NS < nb /\
+  na <= now2 + path_limit L p /\
+  (is_certgen p = true ->
+     na <= Z.max nb (issued_at c now0 + maxc L + (now2 - now1)) /\
+     match req with Some r => 0 < r <= maxc L /\ na <= now2 + r | None => True end) /\
+  (is_certgen p = false -> na = nb + path_limit L p).
+Proof. exact effective_window_bound. Qed.
+Print Assumptions c03_effective_window.
+
+Theorem c03_config_independent : forall cfg cfg' L p req c now0 now1 now2,
+  effective_window cfg L p req c now0 now1 now2 = effective_window cfg' L p req c now0 now1 now2.
+Proof. exact effective_window_cfg_independent. Qed.
+Print Assumptions c03_config_independent.
+
+Theorem c03_fixed_paths_ignore_request : forall cfg L p req req' c c' now0 now0' now1 now1' now2,
+  is_certgen p = false ->
+  effective_window cfg L p req c now0 now1 now2 = effective_window cfg L p req' c' now0' now1' now2.
+Proof. exact fixed_paths_ignore_request. Qed.
+Print Assumptions c03_fixed_paths_ignore_request.
+
+(* non-vacuity: the default path on an 8 h old client certificate is clamped to 16 h; the cloud-role
+   path signs for the literal under a configuration that sets two knobs to ~114 years *)
+Example c03_effective_examples :
+  let L := {| maxc := 86400 * NS; maxrole := 45 * 86400 * NS; awslife := 86400 * NS |} in
+  effective_window nil L CertgenX509 None (KmCert (1790000000 * NS)) 0 ((1790000000 + 8 * 3600) * NS) ((1790000000 + 8 * 3600) * NS)
+    = Some ((1790000000 + 8 * 3600) * NS, (1790000000 + 24 * 3600) * NS) /\
+  effective_window [(0%N, 1000000 * 3600 * NS); (3%N, 1000000 * 3600 * NS)] L Aws (Some (1000 * 3600 * NS)) Basic 5 5 (1790000000 * NS)
+    = Some (1790000000 * NS, (1790000000 + 86400) * NS).
+Proof. vm_compute. split; reflexivity. Qed.
